@@ -24,7 +24,7 @@ from kernel import theory
 from logic import basic, logic
 
 PROP = 'C18'
-IMPORTS = 'TruthTable Alethe'
+IMPORTS = 'TruthTable Alethe LaGeneric'
 
 A = [Var(n, BoolType) for n in ['p', 'q', 'r', 's', 't']]
 Ta = TVar('a')
@@ -255,6 +255,8 @@ def la_family(run, r, n):
         return dict(cases=0)
     devnull = io.StringIO()
     stats = dict(cases=0, accepted=0, accepted_valid=0)
+    mexprs, mmeta = [], []
+    fxm = 'true' if os.environ.get('VERIF_MODEL_FIXES', 'on') == 'on' else 'false'
 
     def lin_term(T, coeffs, const, vs):
         num = Int if T == IntType else Real
@@ -290,7 +292,7 @@ def la_family(run, r, n):
         sa = [-sum(lam[i] * cons[i][0][j] for i in range(k - 1)) for j in range(len(vs))]
         sb = -sum(lam[i] * cons[i][1] for i in range(k - 1)) - d
         cons.append((sa, sb, r.choice(['ge', 'ge', 'gt'])))
-        variant = r.choice(['farkas', 'farkas', 'shift', 'weight', 'kind'])
+        variant = r.choice(['farkas', 'farkas', 'shift', 'weight', 'kind', 'zero', 'zero'])
         if variant == 'shift':
             j = r.randrange(k)
             cons[j] = (cons[j][0], cons[j][1] + r.choice([1, 2]), cons[j][2])
@@ -299,6 +301,19 @@ def la_family(run, r, n):
         elif variant == 'kind':
             j = r.randrange(k)
             cons[j] = (cons[j][0], cons[j][1], {'ge': 'gt', 'gt': 'ge', 'eq': 'ge'}[cons[j][2]])
+        elif variant == 'zero':
+            # a constraint that takes no part in the combination (weight 0), preferably a strict one; the others
+            # sum to 0 (>= | >) 0
+            j = r.randrange(k)
+            lam[j] = 0
+            cons[j] = ([r.randint(-2, 2) for _ in vs], r.randint(-2, 2), r.choice(['gt', 'gt', 'ge']))
+            rest = [i for i in range(k) if i != j]
+            if rest:
+                i0 = rest[-1]
+                lam[i0] = 1
+                sa0 = [-sum(lam[i] * cons[i][0][q_] for i in rest if i != i0) for q_ in range(len(vs))]
+                sb0 = -sum(lam[i] * cons[i][1] for i in rest if i != i0) - r.choice([0, 0, 1])
+                cons[i0] = (sa0, sb0, r.choice(['ge', 'ge', 'gt']))
         lits, zlits = [], []
         for (a_, b_, kind) in cons:
             # split e = p - q with p = positive part + constant, q = negative part
@@ -321,6 +336,15 @@ def la_family(run, r, n):
         num = Int if T == IntType else Real
         args = tuple(lits) + ([num(c) for c in lam],)
         stats['cases'] += 1
+        kd = {'ge': 'KGe', 'gt': 'KGt', 'eq': 'KEq'}
+        if T == IntType:
+            gz = lambda n_: '(%d)%%Z' % n_
+            model_expr = 'accept_int %s %s' % (g_list(['(mkZ %s %s %s)' % (kd[kk], g_list([gz(c) for c in a_]), gz(-b_)) for a_, b_, kk in cons]),
+                                               g_list([gz(c) for c in lam]))
+        else:
+            gq = lambda n_: '((%d) # 1)%%Q' % n_
+            model_expr = 'accept_real %s %s %s' % (fxm, g_list(['(mkQ %s %s %s)' % (kd[kk], g_list([gq(c) for c in a_]), gq(-b_)) for a_, b_, kk in cons]),
+                                                  g_list([gq(c) for c in lam]))
         try:
             with contextlib.redirect_stdout(devnull):
                 th = macro.eval(args, [])
@@ -329,6 +353,8 @@ def la_family(run, r, n):
             raise
         except Exception as e:
             th, err = None, type(e).__name__
+        mexprs.append('(if Bool.eqb (%s) %s then 1 else 0)' % (model_expr, g_bool(th is not None)))
+        mmeta.append((lits, lam, th is not None, err, variant))
         run.stat('la_generic:%s:%s' % (variant, 'accepted' if th is not None else err))
         run.count(('la', tuple(sstr(l) for l in lits), tuple(lam)), nontrivial=th is not None)
         if th is None:
@@ -351,6 +377,19 @@ def la_family(run, r, n):
                           dict(literals=[sstr(l) for l in lits], literals_repr=[repr(l) for l in lits], coefficients=lam, type=str(T),
                                counter_model=str(m), variant=variant, reproduce="theory.global_macros['verit_la_generic'].eval(tuple(literals) + ([coeffs],), [])"),
                           key='C18:la_generic:invalid')
+    # the acceptance test against its model (LaGeneric.accept_int / accept_real, for which acceptance => validity is proved)
+    codes = coq_eval_nats(run.wd, IMPORTS, mexprs, tag='la', shard=150)
+    dis = 0
+    for (lits, lam, acc, err, variant), code in zip(mmeta, codes):
+        if code != 1:
+            dis += 1
+            if dis <= 4:
+                run.violation('correspondence', 'correspondence:C18/la_generic: model and macro.eval disagree on %s with coefficients %s (%s)'
+                              % (' | '.join(sstr(l) for l in lits), lam, variant),
+                              dict(correspondence='C18/la_generic', literals=[sstr(l) for l in lits], coefficients=lam, impl_accepts=acc, impl_error=err),
+                              failing_input=False)
+    stats['model_cases'] = len(mexprs)
+    stats['model_disagree'] = dis
     return stats
 
 
